@@ -191,7 +191,7 @@ class Elf(BinFormat):
                 c = self.readsection(s)
             if c:
                 if size != None:
-                    if isinstance(c, Str):
+                    if hasattr(c, "data"):
                         c = c.data
                     data = c[offset : offset + size]
                 else:
@@ -201,10 +201,13 @@ class Elf(BinFormat):
     def getfileoffset(self, target):
         "converts given target virtual address back to offset in file"
         s, offset, base = self.getinfo(target)
-        if s != None:
+        if s is None:
+            result = None
+        elif isinstance(s, Phdr):
             result = s.p_offset + offset
         else:
-            result = None
+            # getinfo prefers returning a section header:
+            result = s.sh_offset + offset
         return result
 
     def readsegment(self, S):
